@@ -351,7 +351,7 @@ func (h *handler) doCall(ci *connInfo, call string, n int, data []byte, cb bool)
 		if err != nil {
 			es = "short"
 		}
-		rec.Obs(tr.L("hr", "read", tr.X(p[:m]), es))
+		rec.Obs(tr.L("hr", tr.I(ci.cid), "read", tr.X(p[:m]), es))
 		h.expectConsumed(ci, p[:m], "Read")
 		ci.consumed += m
 		h.checkInbound(ci, "read")
@@ -362,7 +362,7 @@ func (h *handler) doCall(ci *connInfo, call string, n int, data []byte, cb bool)
 		if err != nil {
 			es = "short"
 		}
-		rec.Obs(tr.L("hr", "next", tr.X(b), es))
+		rec.Obs(tr.L("hr", tr.I(ci.cid), "next", tr.X(b), es))
 		h.expectConsumed(ci, b, "Next")
 		ci.consumed += len(b)
 		h.checkInbound(ci, "next")
@@ -373,7 +373,7 @@ func (h *handler) doCall(ci *connInfo, call string, n int, data []byte, cb bool)
 		if err != nil {
 			es = "short"
 		}
-		rec.Obs(tr.L("hr", "peek", tr.X(b), es))
+		rec.Obs(tr.L("hr", tr.I(ci.cid), "peek", tr.X(b), es))
 		h.expectConsumed(ci, b, "Peek")
 		if err == nil && n > 0 && len(b) != n {
 			rec.Fail("inbound-stream", "Peek-length", fmt.Sprintf("cid %d Peek(%d) returned %d bytes", ci.cid, n, len(b)))
@@ -381,24 +381,24 @@ func (h *handler) doCall(ci *connInfo, call string, n int, data []byte, cb bool)
 	case "discard":
 		rec.Op(tr.L("h", "discard", tr.I(n)))
 		m, _ := c.Discard(n)
-		rec.Obs(tr.L("hr", "discard", tr.I(m)))
+		rec.Obs(tr.L("hr", tr.I(ci.cid), "discard", tr.I(m)))
 		ci.consumed += m
 		h.checkInbound(ci, "discard")
 	case "writeto":
 		rec.Op(tr.L("h", "writeto"))
 		var s sink
 		m, err := c.WriteTo(&s)
-		rec.Obs(tr.L("hr", "writeto", tr.X(s.Bytes()), tr.I(int(m)), errSym(err)))
+		rec.Obs(tr.L("hr", tr.I(ci.cid), "writeto", tr.X(s.Bytes()), tr.I(int(m)), errSym(err)))
 		h.expectConsumed(ci, s.Bytes(), "WriteTo")
 		ci.consumed += s.Len()
 		h.checkInbound(ci, "writeto")
 	case "inbuf":
 		rec.Op(tr.L("h", "inbuf"))
-		rec.Obs(tr.L("hr", "inbuf", tr.I(c.InboundBuffered())))
+		rec.Obs(tr.L("hr", tr.I(ci.cid), "inbuf", tr.I(c.InboundBuffered())))
 	case "outbuf":
 		rec.Op(tr.L("h", "outbuf"))
 		ob := c.OutboundBuffered()
-		rec.Obs(tr.L("hr", "outbuf", tr.I(ob)))
+		rec.Obs(tr.L("hr", tr.I(ci.cid), "outbuf", tr.I(ob)))
 		rec.mu.Lock()
 		handed := rec.handed[ci.cid]
 		rec.mu.Unlock()
@@ -408,7 +408,7 @@ func (h *handler) doCall(ci *connInfo, call string, n int, data []byte, cb bool)
 	case "write":
 		rec.Op(tr.L("h", "write", tr.X(data)))
 		m, err := c.Write(data)
-		rec.Obs(tr.L("hr", "write", tr.I(m), errSym(err)))
+		rec.Obs(tr.L("hr", tr.I(ci.cid), "write", tr.I(m), errSym(err)))
 		if err == nil && !ci.udp {
 			ci.accepted = append(ci.accepted, data...)
 		}
@@ -418,7 +418,7 @@ func (h *handler) doCall(ci *connInfo, call string, n int, data []byte, cb bool)
 		cp := make([][]byte, len(segs))
 		copy(cp, segs)
 		m, err := c.Writev(cp)
-		rec.Obs(tr.L("hr", "writev", tr.I(m), errSym(err)))
+		rec.Obs(tr.L("hr", tr.I(ci.cid), "writev", tr.I(m), errSym(err)))
 		if err == nil {
 			ci.accepted = append(ci.accepted, bytes.Join(segs, nil)...)
 		}
@@ -429,12 +429,12 @@ func (h *handler) doCall(ci *connInfo, call string, n int, data []byte, cb bool)
 		if err != nil && err.Error() == "server is going to be shutdown" {
 			es = "shutdown"
 		}
-		rec.Obs(tr.L("hr", "flush", es))
+		rec.Obs(tr.L("hr", tr.I(ci.cid), "flush", es))
 		ci.unflushed = false
 	case "readfrom":
 		rec.Op(tr.L("h", "readfrom", tr.X(data)))
 		m, err := c.ReadFrom(bytes.NewReader(data))
-		rec.Obs(tr.L("hr", "readfrom", tr.I(int(m)), errSym(err)))
+		rec.Obs(tr.L("hr", tr.I(ci.cid), "readfrom", tr.I(int(m)), errSym(err)))
 		ci.accepted = append(ci.accepted, data...)
 		if len(data) > 0 {
 			ci.unflushed = true
@@ -442,16 +442,16 @@ func (h *handler) doCall(ci *connInfo, call string, n int, data []byte, cb bool)
 	case "asyncwrite":
 		rec.Op(tr.L("h", "asyncwrite", tr.X(data), tr.B(cb)))
 		err := c.AsyncWrite(data, h.acb("write", ci, cb, data))
-		rec.Obs(tr.L("hr", "asyncwrite", errSym(err)))
+		rec.Obs(tr.L("hr", tr.I(ci.cid), "asyncwrite", errSym(err)))
 	case "asyncwritev":
 		segs := splitSegs(data, n)
 		rec.Op(tr.L("h", append([]string{"asyncwritev", tr.B(cb)}, segArgs(segs)...)...))
 		err := c.AsyncWritev(segs, h.acb("writev", ci, cb, data))
-		rec.Obs(tr.L("hr", "asyncwritev", errSym(err)))
+		rec.Obs(tr.L("hr", tr.I(ci.cid), "asyncwritev", errSym(err)))
 	case "wake":
 		rec.Op(tr.L("h", "wake", tr.B(cb)))
 		err := c.Wake(h.acb("wake", ci, cb, nil))
-		rec.Obs(tr.L("hr", "wake", errSym(err)))
+		rec.Obs(tr.L("hr", tr.I(ci.cid), "wake", errSym(err)))
 	case "close":
 		rec.Op(tr.L("h", "close", tr.B(cb)))
 		var err error
@@ -461,7 +461,7 @@ func (h *handler) doCall(ci *connInfo, call string, n int, data []byte, cb bool)
 			err = c.Close()
 		}
 		ci.localReq = true
-		rec.Obs(tr.L("hr", "close", errSym(err)))
+		rec.Obs(tr.L("hr", tr.I(ci.cid), "close", errSym(err)))
 	case "elclose":
 		rec.Op(tr.L("h", "elclose"))
 		ci.localReq = true
@@ -470,7 +470,7 @@ func (h *handler) doCall(ci *connInfo, call string, n int, data []byte, cb bool)
 		if err != nil && err.Error() == "server is going to be shutdown" {
 			es = "shutdown"
 		}
-		rec.Obs(tr.L("hr", "elclose", es))
+		rec.Obs(tr.L("hr", tr.I(ci.cid), "elclose", es))
 	}
 }
 
